@@ -176,3 +176,29 @@ func (o *ClashExtClaims) Validate() error { return psa.ValidateClaims(o) }
 func (o ClashExtClaims) MarshalCBOR() ([]byte, error) {
 	return encoding.SerializeStructToCBOR(extEM, &o)
 }
+
+// RenamedProfile: a built-in claims type registered under another name, without embedding: GetClaims returns a plain
+// *P1Claims / *P2Claims whose CanonicalProfile is the new name. For base 1 the optional profile claim is left unset
+// unless WithClaim (as the library's own factory does for the default entry).
+type RenamedProfile struct {
+	Name      string
+	Base      int
+	WithClaim bool
+}
+
+func (p RenamedProfile) GetName() string { return p.Name }
+func (p RenamedProfile) GetClaims() psa.IClaims {
+	if p.Base == 1 {
+		c := &psa.P1Claims{SwComponents: psa.VerifNewSwComponents(nil), CanonicalProfile: p.Name}
+		if p.WithClaim {
+			n := p.Name
+			c.Profile = &n
+		}
+		return c
+	}
+	ep := eat.Profile{}
+	if err := ep.Set(p.Name); err != nil {
+		panic(fmt.Sprintf("renamed profile name %q: %v", p.Name, err))
+	}
+	return &psa.P2Claims{Profile: &ep, SwComponents: psa.VerifNewSwComponents(nil), CanonicalProfile: p.Name}
+}
